@@ -34,3 +34,7 @@ for d in sorted(glob.glob(V + "/seeded/*/")):
         sh("git -C /repo checkout -- .")
     print(rows[-1], flush=True)
 json.dump(rows, open(V + "/seeded/matrix.json", "w"), indent=1)
+# leave binaries built from the restored tree behind
+sys.path.insert(0, V + "/lib")
+import common
+common.build_harness()
